@@ -263,3 +263,14 @@ PROPS["C14"] = {
     "outside_claim": ["the cluster service's own loop (reservation release on manager completion) and the hostname service internals", "true multi-goroutine interleavings and data races", "runs pre-empted by provider shutdown keep the safety obligations but not 'teardown is invoked' (shutdown deliberately leaves workloads running)"],
     "assumptions": ["a cluster operation starts when its goroutine is spawned and its effects happen atomically at its completion point"],
 }
+
+PROPS["C20"] = {
+    "jobs": [{"pkg": "provider/manifest", "files": ["harness/C20/manager.go"], "shims": ["shim.go.tmpl", "shim_loop.go.tmpl"],
+              "quick": ["Harness_C20_5"], "thorough": ["Harness_C20_6", "Harness_C20_7"],
+              "opts": {"timeout": 20000, "witness": 6}, "reach": {"Harness_C20_5": ["returned", "idle"]}}],
+    "bounds": {"quick": "manifest (*manager).run: <=5 environment selects before shutdown is forced; <=2 lease notifications, 1 lease removal, <=2 manifest submissions of 3 kinds (valid, other version, structurally invalid) each with its own capacity-1 reply channel, 1 version update, chain-data fetch ok/failed at any scheduler-chosen point, shutdown at any point; validateRequest runs the real validators on concrete manifests",
+               "thorough": "6 and 7 selects"},
+    "stubs": LOOP_STUBS + ["sdl.ManifestVersion -> injective tag of the manifest content in the engine (the JSON/SHA-256 hash is outside the encodable fragment); natively the real hash", "hostname service -> always available"],
+    "outside_claim": ["the watchdog and the service-level routing of submissions to managers", "the stop timer's linger period (the timer may fire at any select)", "true multi-goroutine interleavings"],
+    "assumptions": ["a second send on a full capacity-1 reply channel blocks the manager forever (counted as a hang)"],
+}
